@@ -525,6 +525,13 @@ Value Search::search(Position& position, Depth depth, Value alpha, Value beta,
         if (doFutilityPruning && moveIsQuiet
                 && !position.move_gives_check(move))
         {
+            // a skipped move is assumed to reach at most eval + margin: keep
+            // that as a floor, otherwise a node where every move is skipped
+            // returns -infinity, which the parent reports as a mate
+            bestValue = std::max(
+                bestValue,
+                info->_static_eval + (depth == 1 ? FUTILITY_DEPTH_1_MARGIN
+                                                 : FUTILITY_DEPTH_2_MARGIN));
             continue;
         }
 
